@@ -1,6 +1,6 @@
 (** encode_length: the encoder writes exactly the announced number of bytes. *)
 From Coq Require Import Lia ZifyBool ZifyNat ZifyN.
-From Sci Require Import Wire.Codec Wire.Spec_C03 Wire.BitFieldProofs Wire.Proofs_C03 Wire.RoundTripProofs Wire.ChecksumVerify.
+From Sci Require Import Wire.Codec Wire.Spec_C03 Wire.BitFieldProofs Wire.Proofs_C03 Wire.RoundTripProofs Wire.ChecksumProofs Wire.ChecksumVerify.
 Local Open Scope N_scope.
 Ltac Zify.zify_post_hook ::= Z.div_mod_to_equations.
 Arguments N.add : simpl never. Arguments N.sub : simpl never. Arguments N.mul : simpl never.
@@ -195,12 +195,207 @@ Proof.
   change (AddressHeader_FIXED_SIZE_BITS / 8) with 16.
   set (b1 := w AddressHeader_SRC_AS_RNG _ _).
   assert (L1 : blen b1 = blen buf).
-  { unfold b1. rewrite !w_blen; try reflexivity.
-    all: rewrite ?w_blen.
-    all: try (change (byte_hi AddressHeader_SRC_AS_RNG) with 16; lia).
-    all: try (change (byte_hi AddressHeader_SRC_ISD_RNG) with 10; lia).
-    all: try (change (byte_hi AddressHeader_DST_AS_RNG) with 8; lia).
-    all: try (change (byte_hi AddressHeader_DST_ISD_RNG) with 2; lia). }
+  { unfold b1.
+    change (w AddressHeader_SRC_AS_RNG (N.land (h_src_ia h) ASN_MASK) (w AddressHeader_SRC_ISD_RNG (trunc 16 (N.shiftr (h_src_ia h) 48))
+             (w AddressHeader_DST_AS_RNG (N.land (h_dst_ia h) ASN_MASK) (w AddressHeader_DST_ISD_RNG (trunc 16 (N.shiftr (h_dst_ia h) 48)) buf))))
+      with (apply_writes [(AddressHeader_DST_ISD_RNG, trunc 16 (N.shiftr (h_dst_ia h) 48)); (AddressHeader_DST_AS_RNG, N.land (h_dst_ia h) ASN_MASK);
+                          (AddressHeader_SRC_ISD_RNG, trunc 16 (N.shiftr (h_src_ia h) 48)); (AddressHeader_SRC_AS_RNG, N.land (h_src_ia h) ASN_MASK)] buf).
+    apply apply_writes_blen. apply (writes_hi_ok _ 16); [vm_compute; reflexivity|lia]. }
   assert (L2 : blen (put 16 (host_bytes (h_dst_host h)) b1) = blen buf) by (rewrite put_blen; [exact L1|rewrite L1, Bd; lia]).
   rewrite put_blen; [exact L2|]. rewrite L2, Bs. lia.
+Qed.
+
+(** * header *)
+Lemma encode_header_blen h ps buf : header_wf h = true -> header_wire_valid h = true -> blen buf = header_size h ->
+  blen (encode_header h ps buf) = header_size h.
+Proof.
+  intros W V Hb. unfold header_wf in W.
+  repeat (apply Bool.andb_true_iff in W; let X := fresh "W" in destruct W as [W X]).
+  unfold header_wire_valid in V. repeat (apply Bool.andb_true_iff in V; let X := fresh "V" in destruct V as [V X]).
+  unfold encode_header.
+  assert (L1 : blen (encode_common h (trunc 8 (header_size h / 4)) ps buf) = blen buf).
+  { rewrite encode_common_writes. apply apply_writes_blen. apply (writes_hi_ok _ 12); [vm_compute; reflexivity|].
+    rewrite Hb. unfold header_size, CommonHeader_SIZE_BYTES. lia. }
+  set (b1 := encode_common h _ ps buf) in *.
+  assert (A : addr_size h = 16 + host_size (h_dst_host h) + host_size (h_src_host h)) by (apply addr_size_eq; assumption).
+  assert (L2 : blen (on_suffix CommonHeader_SIZE_BYTES (encode_addr h) b1) = blen buf).
+  { rewrite on_suffix_blen by (rewrite L1, Hb; unfold header_size; lia).
+    rewrite encode_addr_blen; try assumption; rewrite skipn_blen, L1, Hb; unfold header_size, CommonHeader_SIZE_BYTES in *; lia. }
+  set (b2 := on_suffix CommonHeader_SIZE_BYTES (encode_addr h) b1) in *.
+  rewrite on_suffix_blen by (rewrite L2, Hb; unfold header_size; lia).
+  rewrite encode_path_blen; try assumption; rewrite skipn_blen, L2, Hb; unfold header_size; lia.
+Qed.
+
+(** * payloads *)
+Lemma scmp_fields_in_header m :
+  forallb (fun x => byte_hi (fst x) <=? scmp_header_size (scmp_type_of m)) (scmp_hdr_fields m) = true
+  \/ (exists t c d, m = SM_Unknown t c d).
+Proof. destruct m; try (left; vm_compute; reflexivity). right. eauto. Qed.
+
+Lemma encode_payload_blen h p hs alh al : payload_wf p = true -> payload_wire_valid p = true ->
+  (forall m, p = PL_Scmp m -> False) ->
+  blen (encode_payload h p hs alh al (zeros (payload_size p hs))) = payload_size p hs.
+Proof.
+  intros W V Hns. destruct (zeros_ok (payload_size p hs)) as [Zok Zlen].
+  destruct p as [b|sp dp d|m]; [| |exfalso; eapply Hns; reflexivity].
+  - cbn [encode_payload payload_size] in *. rewrite put_blen; [exact Zlen|]. rewrite Zlen. lia.
+  - cbn [payload_wf payload_wire_valid] in *.
+    apply Bool.andb_true_iff in W. destruct W as [W Wd]. apply Bool.andb_true_iff in W. destruct W as [Wsp Wdp].
+    apply N.ltb_lt in Wsp. apply N.ltb_lt in Wdp. apply Bool.negb_true_iff in V. apply N.ltb_ge in V. unfold U16_MAX in V.
+    cbn [payload_size] in *.
+    destruct (udp_roundtrip_lemma h sp dp d hs alh al _ Zok Wd Zlen Wsp Wdp V) as (L & _). rewrite L. exact Zlen.
+Qed.
+
+(** * packets: every accepted model with a raw or UDP payload encodes to exactly the announced size *)
+Lemma encode_packet_blen p alh al : model_wf p = true -> packet_wire_valid p = true ->
+  (forall m, p_pl p = PL_Scmp m -> False) ->
+  blen (encode_packet_al p alh al) = packet_size p.
+Proof.
+  intros W V Hns. unfold model_wf in W. apply Bool.andb_true_iff in W. destruct W as [Wh Wp].
+  unfold packet_wire_valid in V. apply Bool.andb_true_iff in V. destruct V as [V _].
+  apply Bool.andb_true_iff in V. destruct V as [Vh Vp].
+  unfold encode_packet_al, packet_size.
+  destruct (zeros_ok (header_size (p_hdr p))) as [_ Zlen].
+  unfold blen at 1. rewrite app_length, Nat2N.inj_add. fold (blen (encode_header (p_hdr p) (trunc 16 (payload_size (p_pl p) (header_size (p_hdr p)))) (zeros (header_size (p_hdr p))))).
+  fold (blen (encode_payload (p_hdr p) (p_pl p) (header_size (p_hdr p)) alh al (zeros (payload_size (p_pl p) (header_size (p_hdr p)))))).
+  rewrite encode_header_blen by assumption. rewrite encode_payload_blen by assumption. reflexivity.
+Qed.
+
+(** * SCMP messages *)
+Lemma scmp_header_size_unknown ty : scmp_is_known ty = false -> scmp_header_size ty = 8 /\ scmp_fixed_size ty = false.
+Proof.
+  unfold scmp_is_known, scmp_type_known. cbn [existsb]. intros H.
+  repeat (apply Bool.orb_false_iff in H; let X := fresh "K" in destruct H as [X H]).
+  unfold scmp_header_size, scmp_fixed_size.
+  unfold SCMP_T_DestinationUnreachable, SCMP_T_PacketTooBig, SCMP_T_ParameterProblem, SCMP_T_ExternalInterfaceDown,
+    SCMP_T_InternalConnectivityDown, SCMP_T_EchoRequest, SCMP_T_EchoReply, SCMP_T_TracerouteRequest, SCMP_T_TracerouteReply in *.
+  rewrite K, K0, K1, K2, K3, K4, K5, K6, K7. split; reflexivity.
+Qed.
+
+Lemma scmp_body_blen m hs buf : payload_wire_valid (PL_Scmp m) = true -> blen buf = scmp_size m hs ->
+  blen (encode_scmp_body m hs buf) = blen buf /\ 4 <= blen buf.
+Proof.
+  intros V Hb. unfold encode_scmp_body.
+  set (ty := scmp_type_of m). set (hdr := scmp_header_size ty). set (n := scmp_size m hs) in *.
+  assert (Facts : hdr <= n /\ 8 <= hdr /\ (forall x, In x (scmp_hdr_fields m) -> byte_hi (fst x) <= hdr)
+                  /\ (match m with SM_Unknown _ _ _ => hdr = 8 | _ => True end)).
+  { destruct m; cbn [payload_wire_valid scmp_type_of] in *; unfold hdr, ty, n; cbn [scmp_type_of scmp_size scmp_hdr_fields];
+      try (refine (conj _ (conj _ (conj _ I)));
+           [ first [ (unfold scmp_error_size; cbn [scmp_type_of]; lia) | (vm_compute; discriminate) | (unfold scmp_header_size; cbn; lia) | idtac ]
+           | vm_compute; discriminate
+           | intros x Hx; cbn [In] in Hx; repeat (destruct Hx as [Hx|Hx]; [subst x; closed_le|]); destruct Hx ]).
+    - (* echo request *) change (scmp_header_size SCMP_T_EchoRequest) with 8. unfold ScmpEchoRequest_HEADER_SIZE_BYTES. lia.
+    - change (scmp_header_size SCMP_T_EchoReply) with 8. unfold ScmpEchoReply_HEADER_SIZE_BYTES. lia.
+    - (* unknown *) apply Bool.negb_true_iff in V. destruct (scmp_header_size_unknown _ V) as [E8 _]. rewrite E8.
+      refine (conj _ (conj _ (conj _ eq_refl))); [unfold ScmpUnknownMessage_HEADER_SIZE_BYTES; lia|lia|].
+      intros x Hx. cbn [In] in Hx. repeat (destruct Hx as [Hx|Hx]; [subst x; closed_le|]). destruct Hx. }
+  destruct Facts as (Hn & H8 & Hf & Hu).
+  change (fold_left (fun b f => w (fst f) (snd f) b) (scmp_hdr_fields m) (w ScmpMessage_TYPE_RNG ty buf))
+    with (apply_writes (scmp_hdr_fields m) (w ScmpMessage_TYPE_RNG ty buf)).
+  assert (L0 : blen (w ScmpMessage_TYPE_RNG ty buf) = blen buf) by (apply w_blen; change (byte_hi ScmpMessage_TYPE_RNG) with 1; lia).
+  assert (L1 : blen (apply_writes (scmp_hdr_fields m) (w ScmpMessage_TYPE_RNG ty buf)) = blen buf).
+  { rewrite apply_writes_blen; [exact L0|]. intros x Hx. rewrite L0. specialize (Hf x Hx). lia. }
+  set (b1 := apply_writes (scmp_hdr_fields m) (w ScmpMessage_TYPE_RNG ty buf)) in *.
+  assert (L2 : forall b2, b2 = match m with SM_Unknown _ _ _ => put (byte_hi ScmpUnknownMessage_CHECKSUM_RNG) (zeros (hdr - byte_hi ScmpUnknownMessage_CHECKSUM_RNG)) b1 | _ => b1 end ->
+               blen b2 = blen buf).
+  { intros b2 ->. destruct m; try exact L1. rewrite put_blen; [exact L1|].
+    destruct (zeros_ok (hdr - byte_hi ScmpUnknownMessage_CHECKSUM_RNG)) as [_ Z]. rewrite Z, L1, Hu.
+    change (byte_hi ScmpUnknownMessage_CHECKSUM_RNG) with 4. lia. }
+  specialize (L2 _ eq_refl).
+  split; [|lia].
+  destruct (scmp_fixed_size ty); [exact L2|].
+  rewrite put_blen; [exact L2|]. rewrite L2. unfold blen at 1. rewrite firstn_length. lia.
+Qed.
+
+Lemma encode_scmp_blen h m hs alh al : payload_wire_valid (PL_Scmp m) = true ->
+  blen (encode_payload h (PL_Scmp m) hs alh al (zeros (scmp_size m hs))) = scmp_size m hs.
+Proof.
+  intros V. destruct (zeros_ok (scmp_size m hs)) as [_ Zlen]. cbn [encode_payload].
+  destruct (scmp_body_blen m hs _ V Zlen) as [L B4]. rewrite w_blen; [rewrite L; exact Zlen|].
+  rewrite L. change (byte_hi ScmpMessage_CHECKSUM_RNG) with 4. exact B4.
+Qed.
+
+(** every accepted model encodes to exactly the announced number of bytes *)
+Lemma encode_packet_blen_all p alh al : model_wf p = true -> packet_wire_valid p = true ->
+  blen (encode_packet_al p alh al) = packet_size p.
+Proof.
+  intros W V. destruct (p_pl p) as [b|sp dp d|m] eqn:Epl.
+  - apply encode_packet_blen; try assumption. intros m Hm. rewrite Epl in Hm. discriminate.
+  - apply encode_packet_blen; try assumption. intros m Hm. rewrite Epl in Hm. discriminate.
+  - unfold model_wf in W. apply Bool.andb_true_iff in W. destruct W as [Wh Wp].
+    unfold packet_wire_valid in V. apply Bool.andb_true_iff in V. destruct V as [V _].
+    apply Bool.andb_true_iff in V. destruct V as [Vh Vp]. rewrite Epl in Vp.
+    unfold encode_packet_al, packet_size. rewrite Epl. cbn [payload_size].
+    unfold blen at 1. rewrite app_length, Nat2N.inj_add.
+    fold (blen (encode_header (p_hdr p) (trunc 16 (scmp_size m (header_size (p_hdr p)))) (zeros (header_size (p_hdr p))))).
+    fold (blen (encode_payload (p_hdr p) (PL_Scmp m) (header_size (p_hdr p)) alh al (zeros (scmp_size m (header_size (p_hdr p)))))).
+    destruct (zeros_ok (header_size (p_hdr p))) as [_ Zlen].
+    rewrite encode_header_blen by assumption. rewrite encode_scmp_blen by assumption. reflexivity.
+Qed.
+
+(** * the SCMP checksum verifies too *)
+Lemma scmp_writes_disjoint m : pairwise_disjoint (map fst ((ScmpMessage_TYPE_RNG, scmp_type_of m) :: scmp_hdr_fields m)) = true
+  /\ In (ScmpMessage_CHECKSUM_RNG, 0) (scmp_hdr_fields m).
+Proof. destruct m; split; try (vm_compute; reflexivity); cbn [scmp_hdr_fields In]; tauto. Qed.
+
+Lemma scmp_quote_ok m : scmp_wf m = true -> bytes_ok (scmp_quote m) = true.
+Proof.
+  destruct m; cbn [scmp_wf scmp_quote]; intros W; try reflexivity;
+    repeat (apply Bool.andb_true_iff in W; let X := fresh "W" in destruct W as [W X]); assumption.
+Qed.
+
+Lemma scmp_body_props m hs buf : scmp_wf m = true -> payload_wire_valid (PL_Scmp m) = true ->
+  bytes_ok buf = true -> blen buf = scmp_size m hs ->
+  bytes_ok (encode_scmp_body m hs buf) = true /\ lane_read (encode_scmp_body m hs buf) ScmpMessage_CHECKSUM_RNG = 0.
+Proof.
+  intros W V Hok Hb. destruct (scmp_body_blen m hs buf V Hb) as [_ B4].
+  unfold encode_scmp_body.
+  set (ty := scmp_type_of m). set (hdr := scmp_header_size ty). set (n := scmp_size m hs) in *.
+  assert (Facts : hdr <= n /\ 8 <= hdr /\ (forall x, In x (scmp_hdr_fields m) -> byte_hi (fst x) <= hdr)).
+  { destruct m; cbn [payload_wire_valid scmp_type_of] in *; unfold hdr, ty, n; cbn [scmp_type_of scmp_size scmp_hdr_fields];
+      try (refine (conj _ (conj _ _));
+           [ first [ (unfold scmp_error_size; cbn [scmp_type_of]; lia) | (vm_compute; discriminate) | (unfold scmp_header_size; cbn; lia) | idtac ]
+           | vm_compute; discriminate
+           | intros x Hx; cbn [In] in Hx; repeat (destruct Hx as [Hx|Hx]; [subst x; closed_le|]); destruct Hx ]).
+    - change (scmp_header_size SCMP_T_EchoRequest) with 8. unfold ScmpEchoRequest_HEADER_SIZE_BYTES. lia.
+    - change (scmp_header_size SCMP_T_EchoReply) with 8. unfold ScmpEchoReply_HEADER_SIZE_BYTES. lia.
+    - apply Bool.negb_true_iff in V. destruct (scmp_header_size_unknown _ V) as [E8 _]. rewrite E8.
+      refine (conj _ (conj _ _)); [unfold ScmpUnknownMessage_HEADER_SIZE_BYTES; lia|lia|].
+      intros x Hx. cbn [In] in Hx. repeat (destruct Hx as [Hx|Hx]; [subst x; closed_le|]). destruct Hx. }
+  destruct Facts as (Hn & H8 & Hf).
+  change (fold_left (fun b f => w (fst f) (snd f) b) (scmp_hdr_fields m) (w ScmpMessage_TYPE_RNG ty buf))
+    with (apply_writes ((ScmpMessage_TYPE_RNG, ty) :: scmp_hdr_fields m) buf).
+  destruct (scmp_writes_disjoint m) as [Hd Hin].
+  assert (Hhi : forall x, In x ((ScmpMessage_TYPE_RNG, ty) :: scmp_hdr_fields m) -> byte_hi (fst x) <= blen buf).
+  { intros x [<-|Hx]; [cbn [fst]; change (byte_hi ScmpMessage_TYPE_RNG) with 1; lia|]. specialize (Hf x Hx). eapply N.le_trans; [exact Hf|]. rewrite Hb. exact Hn. }
+  destruct (apply_writes_spec _ buf Hok Hhi Hd) as (Ok1 & Len1 & Rd & _).
+  pose proof (Rd (ScmpMessage_CHECKSUM_RNG, 0) ltac:(right; exact Hin)) as R0. cbn [fst snd] in R0.
+  rewrite N.mod_0_l in R0 by (apply N.pow_nonzero; discriminate).
+  set (b1 := apply_writes ((ScmpMessage_TYPE_RNG, ty) :: scmp_hdr_fields m) buf) in *.
+  set (b2 := match m with SM_Unknown _ _ _ => put (byte_hi ScmpUnknownMessage_CHECKSUM_RNG) (zeros (hdr - byte_hi ScmpUnknownMessage_CHECKSUM_RNG)) b1 | _ => b1 end).
+  assert (P2 : bytes_ok b2 = true /\ lane_read b2 ScmpMessage_CHECKSUM_RNG = 0 /\ blen b2 = blen buf).
+  { unfold b2. destruct m; try (refine (conj Ok1 (conj R0 Len1))).
+    destruct (zeros_ok (hdr - byte_hi ScmpUnknownMessage_CHECKSUM_RNG)) as [Zo Zl].
+    refine (conj _ (conj _ _)).
+    - apply put_bytes_ok; assumption.
+    - rewrite put_read_below; [exact R0|closed_le|rewrite Len1; change (byte_hi ScmpUnknownMessage_CHECKSUM_RNG) with 4; lia].
+    - rewrite put_blen; [exact Len1|]. rewrite Zl, Len1. change (byte_hi ScmpUnknownMessage_CHECKSUM_RNG) with 4. lia. }
+  destruct P2 as (O2 & R2 & L2).
+  destruct (scmp_fixed_size ty); [split; assumption|].
+  split.
+  - apply put_bytes_ok; [|exact O2]. apply bytes_ok_firstn. apply scmp_quote_ok. exact W.
+  - rewrite put_read_below; [exact R2|change (byte_hi ScmpMessage_CHECKSUM_RNG) with 4; lia|rewrite L2; lia].
+Qed.
+
+Lemma scmp_checksum_verifies h m hs alh al :
+  addr_ok h -> scmp_wf m = true -> payload_wire_valid (PL_Scmp m) = true -> scmp_size m hs <= 65535 ->
+  checksum_verifies h 202 (encode_payload h (PL_Scmp m) hs alh al (zeros (scmp_size m hs))) = true.
+Proof.
+  intros Ha W V Hsz. destruct (zeros_ok (scmp_size m hs)) as [Zok Zlen]. cbn [encode_payload].
+  destruct (scmp_body_props m hs _ W V Zok Zlen) as [Ok2 Z2].
+  destruct (scmp_body_blen m hs _ V Zlen) as [L B4]. rewrite Zlen in L, B4.
+  set (body := encode_scmp_body m hs (zeros (scmp_size m hs))) in *.
+  rewrite <- L. rewrite sub_full.
+  change ScmpMessage_CHECKSUM_RNG with (csum_rng 2) in *. change PROTO_SCMP with 202. unfold w.
+  apply fill_checksum_verifies; try assumption; try reflexivity; try lia.
 Qed.
